@@ -1210,8 +1210,37 @@ def check_C14(ctx):
                      "its allocator can serve (RegionTrackerOk on accounting records of multi-region histories)")
 
 
+def run_cache(ctx, runs, steps):
+    """The page cache on its own: every call with the projection of the real state, validated against Cache.tla"""
+    tlc_check(ctx, "Cache", "MC_Cache.cfg", workers=6, timeout=1800)
+    tlc_expect_violation(ctx, "Cache", "MC_Cache_lose.cfg", "Transparent", workers=4)
+    trace = os.path.join(ctx.work, "cache.ndjson")
+    p = sh([bin_path("cache"), "--seed", str(ctx.seed), "--runs", str(runs), "--steps", str(steps), "--out", trace], timeout=1800)
+    stats = json.loads(p.stdout.strip().splitlines()[-1])
+    log(f"cache: {stats['calls']} calls, {stats['faults_injected']} injected failures ({stats['failed_best_effort_writebacks']} best-effort "
+        f"write-backs), {stats['pages_written_back_by_other_calls']} pages written back under pressure, {stats['panics']} panics")
+    ok, info = tlc_trace_generic(ctx, "CacheTrace", trace, timeout=3600)
+    ctx.cov["evaluations"] += stats["calls"]
+    ctx.notes["page_cache"] = {k: v for k, v in stats.items() if k != "samples"}
+    if not ok:
+        lines = [json.loads(l) for l in open(trace).read().splitlines()[: info["line"]]]
+        start = max(i for i, l in enumerate(lines) if l["e"] == "creset")
+        rec = {k: v for k, v in lines[-1].items() if k != "bytes"}
+        what = (f"page cache: call {json.dumps(rec)[:400]} (call {info['line'] - start - 1} of run {rec.get('run')}, budget "
+                f"{lines[start].get('budget')} pages) is not a step Cache.tla allows: the cache is no longer transparent")
+        sig = "cache:" + hashlib.sha256(json.dumps([[l.get("e"), l.get("o"), l.get("r")] for l in lines[start:]]).encode()).hexdigest()[:16]
+        payload = {"property": ctx.prop, "kind": "cache", "seed": ctx.seed, "runs": runs, "steps": steps, "tier": ctx.tier, "rejected": rec,
+                   "calls": lines[start:][-40:], "what": what, "signature": sig}
+        raise Violation(ctx.prop, save_replay(ctx.prop, payload), what, sig)
+    ctx.cov["traces_validated_against_impl"] += stats["runs"]
+    if stats["failed_best_effort_writebacks"] < 5 or stats["faults_injected"] < 20:
+        raise ToolError(f"vacuity: too few injected failures reached the cache: {stats}")
+    return stats
+
+
 def check_C08(ctx):
     build()
+    run_cache(ctx, tiered(ctx, 60, 600), 300)
     histories, steps, stride = tiered(ctx, (3, 120, 3), (30, 250, 1))
     st = run_fault(ctx, histories, steps, stride)
     if st["errors_returned"] < 100:
@@ -1226,7 +1255,11 @@ def check_C08(ctx):
                      "against Kv.tla + FaultyStep: no panic; a call returns its specified result or a storage error; after an error was "
                      "returned begin_write/commit are refused; a commit that returned Ok is in the history (durable if Immediate); every "
                      "observation after reopen is one commit point >= the last acknowledged durable one, the failed commit entirely in or out. "
-                     "distinct_nontrivial = faulty runs (distinct (history, k, mode)).")
+                     "distinct_nontrivial = faulty runs (distinct (history, k, mode)). the cache layer on its own: design Cache.tla (write "
+                     "buffer + read cache over the backend; every read returns the last write whatever was buffered, evicted, written back, "
+                     "flushed or failed in between; the variant that drops a page whose best-effort write-back failed is caught); code: "
+                     "random calls on the real PagedCachedFile (budgets of 0 to 16 pages, injected backend failures) with the projection "
+                     "of buffer, read cache, flag and backend content after every call, validated by TLC (CacheTrace.tla).")
 
 
 def check_C20(ctx):
@@ -1586,7 +1619,7 @@ def main(argv):
                 still = replay_crash_case(ctx, replay)
             elif payload.get("kind") == "sched":
                 still = replay_sched(ctx, payload)
-            elif payload.get("kind", "").startswith("contract") or payload.get("kind") in ("keys", "forest", "commitio", "conc"):
+            elif payload.get("kind", "").startswith("contract") or payload.get("kind") in ("keys", "forest", "commitio", "conc", "cache"):
                 ctx.seed = payload.get("seed", ctx.seed)
                 ctx.tier = payload.get("tier", ctx.tier)
                 try:
